@@ -1,7 +1,231 @@
-/* codec / address / JSON / key-file operations of drv_text.c (C15, C17): filled in by the C17 / C15 checks */
+/* codec / endian / socket-address / JSON / key-file operations of drv_text.c (properties C15, C17).
+ * All inputs are exact-size heap allocations; outputs are exact-size per the contract of each function. */
+
+static uint8_t *
+xbytes(const char * hex, size_t * lenp)
+{
+	size_t len = (strcmp(hex, "-") == 0) ? 0 : strlen(hex) / 2;
+	uint8_t * b = malloc(len ? len : 1);
+
+	if (len) unhex(hex, b, len);
+	*lenp = len;
+	return (b);
+}
+
+static void
+log_sa(const char * pfx, const struct sock_addr * sa)
+{
+	char k[32];
+
+	snprintf(k, sizeof(k), "%sfam", pfx);
+	vt_str(k, sa->ai_family == AF_INET ? "inet" : sa->ai_family == AF_INET6 ? "inet6" : sa->ai_family == AF_UNIX ? "unix" : "other");
+	snprintf(k, sizeof(k), "%saddr", pfx);
+	if (sa->ai_family == AF_INET) {
+		const struct sockaddr_in * s = (const struct sockaddr_in *)sa->name;
+		vt_hex(k, &s->sin_addr, 4);
+		snprintf(k, sizeof(k), "%sport", pfx); vt_int(k, ntohs(s->sin_port));
+	} else if (sa->ai_family == AF_INET6) {
+		const struct sockaddr_in6 * s = (const struct sockaddr_in6 *)sa->name;
+		vt_hex(k, &s->sin6_addr, 16);
+		snprintf(k, sizeof(k), "%sport", pfx); vt_int(k, ntohs(s->sin6_port));
+	} else if (sa->ai_family == AF_UNIX) {
+		const struct sockaddr_un * s = (const struct sockaddr_un *)sa->name;
+		vt_hex(k, s->sun_path, strnlen(s->sun_path, sizeof(s->sun_path)));
+		snprintf(k, sizeof(k), "%sport", pfx); vt_int(k, 0);
+	} else {
+		vt_str(k, "");
+		snprintf(k, sizeof(k), "%sport", pfx); vt_int(k, -1);
+	}
+}
+
 static void
 do_codec(char * l)
 {
+	char op[16], a[1 << 17], b[1 << 17];
+	size_t alen, blen, i;
+	int n;
 
-	(void)l;
+	a[0] = b[0] = 0;
+	n = sscanf(l, "%15s %131071s %131071s", op, a, b);
+	if (n < 2)
+		return;
+	if (strcmp(op, "b64e") == 0) {
+		uint8_t * in = xbytes(a, &alen);
+		char * out = malloc(((alen + 2) / 3) * 4 + 1);
+		b64encode(in, out, alen);
+		vt_begin("b64e"); vt_str("in", strcmp(a, "-") ? a : ""); vt_hex("out", out, strlen(out)); vt_end();
+		free(in); free(out);
+	} else if (strcmp(op, "b64d") == 0) {
+		/* the encoded text is given with its length, not NUL-terminated */
+		uint8_t * in = xbytes(a, &alen);
+		uint8_t * out = malloc((alen / 4) * 3 ? (alen / 4) * 3 : 1);
+		size_t outlen = 777777;
+		int rc = b64decode((const char *)in, alen, out, &outlen);
+		vt_begin("b64d"); vt_str("in", strcmp(a, "-") ? a : ""); vt_int("rc", rc);
+		vt_int("outlen", rc == 0 ? (long long)outlen : -1);
+		if (rc == 0 && outlen <= (alen / 4) * 3) vt_hex("out", out, outlen);
+		vt_end();
+		free(in); free(out);
+	} else if (strcmp(op, "hexe") == 0) {
+		uint8_t * in = xbytes(a, &alen);
+		char * out = malloc(2 * alen + 1);
+		hexify(in, out, alen);
+		vt_begin("hexe"); vt_str("in", strcmp(a, "-") ? a : ""); vt_hex("out", out, strlen(out)); vt_end();
+		free(in); free(out);
+	} else if (strcmp(op, "hexd") == 0) {
+		/* hexd <hex of the NUL-terminated text> <len> */
+		size_t len = (size_t)atol(b);
+		char * in = xstr(a, &alen);
+		uint8_t * out = malloc(len ? len : 1);
+		int rc = unhexify(in, out, len);
+		vt_begin("hexd"); vt_str("in", strcmp(a, "-") ? a : ""); vt_int("len", (long long)len); vt_int("rc", rc);
+		if (rc == 0) vt_hex("out", out, len);
+		vt_end();
+		free(in); free(out);
+	} else if (strcmp(op, "en") == 0) {
+		/* en <bits><b|l> <offset> <valuehex big-endian, bits/4 digits> */
+		int bits = atoi(a), off;
+		char order = a[strlen(a) - 1];
+		char vhex[64];
+		uint8_t * buf;
+		uint64_t v, back = 0;
+		if (sscanf(l, "%*s %*s %d %63s", &off, vhex) != 2 || off < 0 || off > 15)
+			return;
+		v = strtoull(vhex, NULL, 16);
+		buf = malloc((size_t)off + (size_t)bits / 8);	/* exact: nothing after the value */
+		memset(buf, 0xAA, (size_t)off + (size_t)bits / 8);
+		switch (bits) {
+		case 16: if (order == 'b') { be16enc(buf + off, (uint16_t)v); back = be16dec(buf + off); } else { le16enc(buf + off, (uint16_t)v); back = le16dec(buf + off); } break;
+		case 32: if (order == 'b') { be32enc(buf + off, (uint32_t)v); back = be32dec(buf + off); } else { le32enc(buf + off, (uint32_t)v); back = le32dec(buf + off); } break;
+		default: if (order == 'b') { be64enc(buf + off, v); back = be64dec(buf + off); } else { le64enc(buf + off, v); back = le64dec(buf + off); } break;
+		}
+		vt_begin("en"); vt_int("bits", bits); vt_str("order", order == 'b' ? "be" : "le"); vt_int("off", off);
+		vt_str("v", vhex); vt_hex("bytes", buf + off, (size_t)bits / 8);
+		{ char bk[32]; snprintf(bk, sizeof(bk), "%0*llx", bits / 4, (unsigned long long)back); vt_str("back", bk); }
+		for (i = 0; i < (size_t)off; i++) if (buf[i] != 0xAA) break;
+		vt_bool("clean", i == (size_t)off);
+		vt_end();
+		free(buf);
+	} else if (strcmp(op, "sr") == 0) {
+		/* sr <hex of address text> [want: fam addrhex port]  -- numeric / Unix-path addresses only */
+		char * addr = xstr(a, &alen);
+		struct sock_addr ** sas = sock_resolve(addr);
+		vt_begin("sr"); vt_str("s", strcmp(a, "-") ? a : "");
+		{
+			char wf[16] = "", wa[600] = ""; int wp = -1;
+			if (sscanf(l, "%*s %*s %15s %599s %d", wf, wa, &wp) == 3) { vt_str("wfam", wf); vt_str("waddr", strcmp(wa, "-") ? wa : ""); vt_int("wport", wp); }
+		}
+		if (sas == NULL || sas[0] == NULL) {
+			vt_int("n", sas == NULL ? -1 : 0);
+		} else {
+			struct sock_addr * sa = sas[0], * d, * r2;
+			struct sock_addr ** again;
+			uint8_t * ser = NULL; size_t serlen = 0;
+			char * pp;
+			for (n = 0; sas[n] != NULL; n++) ;
+			vt_int("n", n);
+			log_sa("", sa);
+			/* serialise / deserialise / duplicate */
+			if (sock_addr_serialize(sa, &ser, &serlen) == 0) {
+				r2 = sock_addr_deserialize(ser, serlen);
+				vt_bool("ser_rt", r2 != NULL && sock_addr_cmp(sa, r2) == 0);
+				sock_addr_free(r2);
+				free(ser);
+			}
+			d = sock_addr_dup(sa);
+			vt_bool("dup_rt", d != NULL && sock_addr_cmp(sa, d) == 0);
+			sock_addr_free(d);
+			/* print and resolve back */
+			pp = sock_addr_prettyprint(sa);
+			if (pp != NULL) {
+				vt_hex("pp", pp, strlen(pp));
+				again = sock_resolve(pp);
+				vt_bool("pp_rt", again != NULL && again[0] != NULL && sock_addr_cmp(sa, again[0]) == 0);
+				if (again != NULL && again[0] != NULL) log_sa("b", again[0]);
+				sock_addr_freelist(again);
+				free(pp);
+			}
+		}
+		vt_end();
+		sock_addr_freelist(sas);
+		free(addr);
+	} else if (strcmp(op, "sd") == 0) {
+		/* sd <hex of serialised address> : hostile decoder input */
+		uint8_t * in = xbytes(a, &alen);
+		struct sock_addr * sa = sock_addr_deserialize(in, alen);
+		vt_begin("sd"); vt_int("len", (long long)alen); vt_bool("null", sa == NULL);
+		if (sa != NULL) {
+			uint8_t * ser = NULL; size_t serlen = 0;
+			if (sock_addr_serialize(sa, &ser, &serlen) == 0) {
+				vt_bool("same", serlen == alen && memcmp(ser, in, alen) == 0);
+				free(ser);
+			}
+			sock_addr_free(sa);
+		}
+		vt_end();
+		free(in);
+	} else if (strcmp(op, "sdm") == 0) {
+		/* sdm <hex address text> <pos> <val> <trunc>: serialise a real address, corrupt one byte, truncate, decode */
+		char * addr = xstr(a, &alen);
+		struct sock_addr ** sas = sock_resolve(addr);
+		long pos = 0, val = 0, trunc = -1;
+		sscanf(l, "%*s %*s %ld %ld %ld", &pos, &val, &trunc);
+		if (sas != NULL && sas[0] != NULL) {
+			uint8_t * ser = NULL, * in; size_t serlen = 0, inlen;
+			if (sock_addr_serialize(sas[0], &ser, &serlen) == 0) {
+				struct sock_addr * sa;
+				inlen = (trunc >= 0 && (size_t)trunc < serlen) ? (size_t)trunc : serlen;
+				in = malloc(inlen ? inlen : 1);
+				memcpy(in, ser, inlen);
+				if (pos >= 0 && (size_t)pos < inlen) in[pos] = (uint8_t)val;
+				sa = sock_addr_deserialize(in, inlen);
+				vt_begin("sd"); vt_int("len", (long long)inlen); vt_bool("null", sa == NULL);
+				if (sa != NULL) {
+					uint8_t * s2 = NULL; size_t s2len = 0;
+					if (sock_addr_serialize(sa, &s2, &s2len) == 0) { vt_bool("same", s2len == inlen && memcmp(s2, in, inlen) == 0); free(s2); }
+					sock_addr_free(sa);
+				}
+				vt_end();
+				free(in); free(ser);
+			}
+		}
+		sock_addr_freelist(sas);
+		free(addr);
+	} else if (strcmp(op, "jf") == 0) {
+		/* jf <hex key> <hex document> [members json] */
+		char * key = xstr(a, NULL);
+		uint8_t * doc = xbytes(b, &blen);
+		const uint8_t * r = json_find(doc, doc + blen, key);
+		char * m = strstr(l, " m=");
+		vt_begin("jf"); vt_str("key", strcmp(a, "-") ? a : ""); vt_int("len", (long long)blen);
+		vt_int("off", (r >= doc && r <= doc + blen) ? (long long)(r - doc) : -1);
+		if (m != NULL) { char * e = strchr(m, '\n'); if (e) *e = 0; vt_raw("members", m + 3); }
+		vt_end();
+		free(key); free(doc);
+	} else if (strcmp(op, "kf") == 0 || strcmp(op, "pf") == 0) {
+		/* key file / passphrase file with the given content */
+		char fname[] = "/tmp/verif_kf_XXXXXX";
+		uint8_t * content = xbytes(a, &alen);
+		int fd = mkstemp(fname), rc;
+		if (fd < 0) { free(content); return; }
+		if (alen && write(fd, content, alen) != (ssize_t)alen) { close(fd); unlink(fname); free(content); return; }
+		close(fd);
+		if (op[0] == 'k') {
+			char * id = NULL, * secret = NULL;
+			rc = aws_readkeys(fname, &id, &secret);
+			vt_begin("kf"); vt_str("in", strcmp(a, "-") ? a : ""); vt_int("rc", rc);
+			if (rc == 0 && id != NULL && secret != NULL) { vt_hex("id", id, strlen(id)); vt_hex("secret", secret, strlen(secret)); }
+			vt_end();
+			if (rc == 0) { free(id); free(secret); }
+		} else {
+			char * pw = NULL;
+			rc = readpass_file(&pw, fname);
+			vt_begin("pf"); vt_str("in", strcmp(a, "-") ? a : ""); vt_int("rc", rc);
+			if (rc == 0 && pw != NULL) vt_hex("pw", pw, strlen(pw));
+			vt_end();
+			if (rc == 0) free(pw);
+		}
+		unlink(fname);
+		free(content);
+	}
 }
